@@ -1,7 +1,7 @@
 (* Model/Exec.v — what both interpreters share (execution.rs): configuration, matches, capture
    values (Value::from_nodes), debug attributes, the state-and-error monad and its primitives.
    Definitions only. *)
-From TSG Require Export Model.Ast Model.Graph Model.Vars Model.Tree.
+From TSG Require Export Model.Ast Model.Graph Model.Vars Model.Tree Model.Globals.
 
 (* ExecutionConfig (functions and globals are passed separately) *)
 Record config := {
@@ -110,26 +110,7 @@ Definition poll_step (budget : option N) (label : N) (p : polls) : polls * bool 
   | None => (p', false)
   end.
 
-(* File::check_globals on the nested copy (head frame) of the caller's globals *)
-Fixpoint check_globals (decls : list global) (g : globals) : res globals :=
-  match decls with
-  | [] => Ok g
-  | d :: ds =>
-      match globals_get g (gl_name d) with
-      | None =>
-          match gl_default d with
-          | Some dflt =>
-              let '(g', ok) := globals_add g (gl_name d) (VStr dflt) in
-              if ok then check_globals ds g' else Err EDuplicateVariable
-          | None => Err EMissingGlobalVariable
-          end
-      | Some v =>
-          match gl_quant d with
-          | QStar | QPlus => match v with VList _ => check_globals ds g | _ => Err EExpectedList end
-          | _ => check_globals ds g
-          end
-      end
-  end.
+(* File::check_globals is Model/Globals.v (check_globals / run_globals) *)
 
 (* the arm-selection step of `scan` (both interpreters): first arm with an empty match => error;
    otherwise the minimum by (start, arm index) *)
